@@ -4,6 +4,7 @@
 import sys
 import os
 import json
+import re
 import argparse
 from pel.datastream import DataStream
 from collections import OrderedDict
@@ -186,8 +187,11 @@ def prettyPrint(Mdata: str, desiredSpace: int = 34) -> str:
     lines = Mdata.split("\n")
     for i in range(len(lines)):
         line = lines[i]
-        if "\":" in line and "{" not in line:
-            ind = line.index("\":")
+        # Only a key at the start of the line counts: a '":' inside a key or
+        # inside a string value must not be touched.
+        m = re.match(r'\s*"(?:[^"\\]|\\.)*":', line)
+        if m and "{" not in line:
+            ind = m.end() - CHARACTER_SPACE
             spaces = (desiredSpace - ind) * " "    # Calculating spaces needed to add to get the desired spacing.
             ind += CHARACTER_SPACE
             lines[i] = line[:ind] + spaces + line[ind:]
